@@ -125,6 +125,18 @@ CLAIMED = {
         "model validated by the stream (their numeric contracts are checked against Python floats, not proved); tools/fnspec.py as the reading of the function specification.",
    design="DESIGN.md §7 C02",
    technique="Lean 4 contract theorems per builtin + correspondence + independent reference-semantics oracle"),
+ "C11": dict(
+   text="Machine-checked theorems (Lean 4): with big-step evaluation `Evals` (enough fuel, any value of the offset register), each compound "
+        "node is characterised exactly (iff) by the evaluations of its parts, for all sub-trees (function calls included) and documents: "
+        "pipe/sub-expression = composition; a projection over an array result = the right-hand side applied to each element in order, nulls "
+        "dropped, first failure wins; filter step (condition), flatten, object values; multi-select list/hash = tuple/record of the members; "
+        "! && || = truth-table combination with short circuit; comparison. The offset register provably never influences a value or an "
+        "error, evaluation is deterministic, and `(L) | (R)` parses to the sub-expression node of the parses. The check evaluates the laws "
+        "on the implementation alone (search of the compound vs recombination of searches of the parts, intermediate results fed back as "
+        "documents) and compares the compound with the model.",
+   note="Trusted: Lean kernel; interpreter/parser models as sampled by the `eval` stream. No law is stated for function-call nodes themselves (their arguments are covered as sub-trees).",
+   design="DESIGN.md §7 C11",
+   technique="Lean 4 theorems (big-step compositional characterisations, offset irrelevance) + implementation-only recombination oracle"),
 }
 
 NOT_YET = "check not built yet in this session (work in progress; see DESIGN.md §10 for the order of work)"
